@@ -47,11 +47,7 @@ theorem final_state {ρ : Type} (f : Nat → ρ) (s : DS ρ) (batch : Nat) (hb :
         if s.status[p]? = some 0 then some (f p) else s.results[p]?) ∧
     ((computeRun f s batch hb).1.status[p]? =
         if s.status[p]? = some 0 then some 1 else s.status[p]?) := by
-  simp only [computeRun, foldl_applyBatch, rankBatches_single_flatten, applyBatch_results,
-    applyBatch_status, mem_pending]
-  constructor
-  · by_cases h : s.status[p]? = some 0 <;> simp [h, hlen, hp]
-  · by_cases h : s.status[p]? = some 0 <;> simp [h, hp]
+  exact computeRun_spec f s batch hb hlen p hp
 
 /-- Completion status is 1 everywhere afterwards, provided marks were 0/1 to begin with. -/
 theorem all_complete {ρ : Type} (f : Nat → ρ) (s : DS ρ) (batch : Nat) (hb : 0 < batch)
